@@ -19,6 +19,7 @@ KFS = {  # switches of the transcription (HttpFramingOps.tla, constant KF) -> wh
    'icmpYZ': "stricmp_fast lowers only 'A'..'X' in its 8-byte path (estring.cpp:183): header names of 8+ bytes containing Y/Z are not found case-insensitively",
 }
 PARTS = ['msg', 'body', 'writer', 'mal', 'random', 'big']
+CLASSIFY_MAX = 900
 
 
 def _open_kf(ctx, kf):
@@ -100,6 +101,21 @@ def _classify(ctx, mism, tag):
     if not cand:
         return rest
     key = lambda g, r: json.dumps([g[0], r], sort_keys=True)
+    if len(cand) > CLASSIFY_MAX:
+        # far more rejections than the known deviations produce (the harness caps those): explain a sample that covers every
+        # distinct complaint; what is not explained stays a violation, so the cap can only add violations, never hide one
+        by = {}
+        for c in cand:
+            by.setdefault(c[2], []).append(c)
+        pick, i = [], 0
+        while len(pick) < CLASSIFY_MAX:
+            for lst in by.values():
+                if i < len(lst) and len(pick) < CLASSIFY_MAX:
+                    pick.append(lst[i])
+            i += 1
+        keep = {key(g, r) for g, r, t in pick}
+        rest += [(g, r, t, None) for g, r, t in cand if key(g, r) not in keep]
+        cand = pick
 
     def explain(items, kfs):
         rows = []
@@ -120,7 +136,7 @@ def _classify(ctx, mism, tag):
         if '' in ks:
             verdict[k] = ''          # the transcription without deviations predicts this outcome: not a known deviation
     left = [(g, r, t) for g, r, t in cand if verdict[key(g, r)] is None and not any(key(g, r) in okset for okset in singles.values())]
-    if left:
+    if left and len(left) <= 300:
         names = list(KFS)
         pairs = explain(left, [f'{a}+{b}' for i, a in enumerate(names) for b in names[i + 1:]])
         for g, r, t in left:
@@ -170,6 +186,8 @@ def run(ctx):
     pool = ThreadPoolExecutor(max_workers=4)
     # ---- model checking (in the background while the library / harness are built and run)
     mcs = [('MC_HttpFraming', f'MC_HttpFraming_{t}.cfg', 7), ('MC_HttpFraming', f'MC_HttpFramingMal_{t}.cfg', 5)]
+    if t == 'thorough':
+        mcs.append(('MC_HttpFraming', 'MC_HttpFraming3_thorough.cfg', 5))
     futs = [pool.submit(ctx.tlc, m, c, workers=w, timeout=2400, xmx='8g') for m, c, w in mcs]
     # ---- the real code
     ctx.build_lib()
